@@ -1,6 +1,6 @@
 (* Runner.v — top of the executable model: dispatches one request line. *)
 From Coq Require Import String.
-From GS Require Import GoSem Text Dispatch DispatchHuman DispatchParsers DispatchScan.
+From GS Require Import GoSem Text Dispatch DispatchHuman DispatchParsers DispatchScan DispatchRef.
 Open Scope N_scope.
 
 Definition first_some (l : list (option bytes)) : bytes :=
@@ -14,6 +14,7 @@ Definition dispatch (line : bytes) : bytes :=
   | cmd :: args =>
       first_some [ dispatch_counts cmd args; dispatch_human cmd args;
                    dispatch_parsers cmd args;
-                   dispatch_scan cmd args ]
+                   dispatch_scan cmd args;
+                   dispatch_ref cmd args ]
   | [] => err "empty"
   end.
